@@ -776,7 +776,27 @@ theorem binv_launchExtensions (s : State) (ph : Phase) (ps : List String) (hB : 
         refine binv_of_bview ?_ this
         simp only [bview]
         rw [hrepl]; rfl
-      · -- launched: one more external agent in Started
+      · split
+        · -- Exec fails: the new agent is marked as refused at launch, the init fails
+          apply binv_initFinish
+          apply binv_wrap (be_storeFatal _ _) (by simp)
+          apply binv_wrap (be_emit _ _) rfl
+          have hrepl : (setAgent { s with agents := s.agents ++ [{ name := p, ext := true, serial := s.nextSerial }], nextSerial := s.nextSerial + 1 }
+              { name := p, ext := true, st := .launchError, errSet := true, errType := "UnknownError", serial := s.nextSerial }).agents
+              = s.agents ++ [{ name := p, ext := true, st := .launchError, errSet := true, errType := "UnknownError", serial := s.nextSerial }] := by
+            rename_i hcond _ _
+            have hnot : p ∉ s.agents.map (·.name) := by
+              apply findAgent_none_notMem
+              cases hf : (findAgent s p).isSome
+              · rfl
+              · simp [hf] at hcond
+            exact map_replace_last s.agents { name := p, ext := true, serial := s.nextSerial } _ hnot rfl
+          have := binv_append_ext s { name := p, ext := true, st := .launchError, errSet := true, errType := "UnknownError", serial := s.nextSerial }
+            hB rfl (by simp [regd]) hnw hcnt hnext
+          refine binv_of_bview ?_ this
+          simp only [bview]
+          rw [hrepl]; rfl
+        -- launched: one more external agent in Started
         apply ih
         · apply binv_wrap (be_emit _ _) rfl
           have := binv_append_ext s { name := p, ext := true, serial := s.nextSerial } hB rfl (by simp [regd]) hnw hcnt hnext
